@@ -31,7 +31,8 @@ PROPS["C14"] = dict(
          "S*A*S with S=diag(10^U[-2.5,2.5]); n=2,3 weighted up, n up to 10000; 1-4 right-hand sides of four kinds "
          "(normal, unit, huge dynamic range, constant), the first one solved again last. Non-trivial: some "
          "off-diagonal entry non-zero and (n>=3 or cyclic). Distinct: (n, cyclic, construction class, "
-         "floor(log10 kappa), #rhs, rhs kind).",
+         "floor(log10 kappa), #rhs, rhs kind)."
+         " Third session: the solver lives in a std::vector and is relocated (move) or replaced by its copy after the first solve in a third of the cases; a quarter re-state the cyclic flag between solves; n in {10001, 12007, 20000} with 2-4 threads available (diagonally dominant class, Varah's bound on the condition number).",
     technique="property-based testing (rapidcheck) + libFuzzer; differential against a long double reference solver",
     level_text="Generated SPD tridiagonal/cyclic systems are solved by the real solver and compared with an independent "
                "long double reference (dense partial pivoting for n<=64, LDL^T/bordering beyond) under condition-aware "
@@ -57,7 +58,8 @@ PROPS["C16"] = dict(
          "or all rows scaled to 1e-15..1e-12 (class tiny, solved in a forked child so a process exit is observed); "
          "explicit zeros inserted; columns inside a row sorted/reversed/shuffled; all three CSR construction paths; "
          "n=1..60 and 120/300; 1-4 right-hand sides. Non-trivial: fill-in occurs or a row is stored unsorted. "
-         "Distinct: (n, pattern+value+scale class, constructor, sortedness, zeros, fill, #rhs, rhs kind, log10 min pivot).",
+         "Distinct: (n, pattern+value+scale class, constructor, sortedness, zeros, fill, #rhs, rhs kind, log10 min pivot)."
+         " Third session: the solving object is obtained by construction, copy assignment or move assignment onto a solver holding another factorisation (dimension n-1, n, n+2), or copy construction.",
     technique="property-based testing (rapidcheck); differential against long double dense LU with Higham's componentwise bound",
     level_text="Generated sparse systems are solved by the real CSR container + SparseLUSolver and judged by the rigorous "
                "componentwise backward bound |b-Ax| <= c*gamma_3n*|L||U||x| (L,U from a long double factorisation "
@@ -80,7 +82,8 @@ PROPS["C15"] = dict(
          "live, not moved-from object is compared with a value-semantics model (sizes and entries bitwise; solver objects "
          "after their first solve only through solve results against a dense long double reference). Non-trivial: the "
          "history contains a copy or move taken after the source acquired state (a solve for solver classes, any "
-         "content for containers) and a later observation. Distinct: class + sequence of applied command kinds.",
+         "content for containers) and a later observation. Distinct: class + sequence of applied command kinds."
+         " Third session: std::swap and chained assignment commands; one vector in 25 has 10001-10007 entries and the harness runs with three threads.",
     technique="stateful property-based testing (rapidcheck command sequences) against a value-semantics reference model, under ASan/UBSan",
     level_text="Model-based exploration of operation histories: the real objects and a trivially correct value model are "
                "driven by the same generated command sequence and compared after every step; ASan/UBSan watch the "
@@ -128,7 +131,8 @@ PROPS["C18"] = dict(
          "bitwise containment in the divideBy2+1 grid, level count L from the solver (friend accessor, plus the real "
          "setup() on small grids) admits L-1 coarsenings, file round trip within 10^-p. ASan/UBSan/asserts silent. "
          "Non-trivial: anisotropic_factor>=1 or divideBy2>=1 or a file case. Distinct: (nr_exp, ntheta_exp, aniso, "
-         "div, file mode, decile of refinement position, level cap).",
+         "div, file mode, decile of refinement position, level cap)."
+         " Third session: Rmax also 10^U[-2,4] with a non-round mantissa, precisions 12-16 and 18; written files re-laid-out (1-5 numbers per line, tabs, blank lines) must load as the identical grid; one line inserted into / deleted from one half of the angle file: exception or a grid whose every angle has its antipodal partner.",
     technique="property-based testing (rapidcheck) under ASan/UBSan/assert; validity-predicate and metamorphic (refinement nesting, file round-trip) oracles",
     level_text="Generated parameter vectors (including the out-of-domain refinement radii the command line defaults to) "
                "drive the real grid constructor, the solver's own finest-grid/level-count code and the file I/O; every "
@@ -150,7 +154,8 @@ PROPS["C03"] = dict(
          "range, constant). Every case evaluates give x {4 cache combinations} and take on every level against A_ref "
          "(long double gather stencil), compares coarse caches with fresh ones, and (small grids, 1 in 3) probes the full "
          "matrices of give and take entrywise. Non-trivial: non-circular geometry or non-uniform grid, both sections "
-         "non-empty. Distinct: (dims, geometry, profile, BC, #circles, depth, threads).",
+         "non-empty. Distinct: (dims, geometry, profile, BC, #circles, depth, threads)."
+         " Third session: 40% of the cases scale all vectors by 2^+-100 or 2^+-300; a fifth call the operators from inside an enclosing parallel region (team of one although several threads were requested); a quarter also evaluate take and give through a Level object first initialised for the other boundary mode.",
     technique="property-based testing (rapidcheck); differential between five implementations and an independent long double reference operator, entrywise matrix probing",
     level_text="Each generated grid/geometry/profile/vector case runs all five residual implementations on every level of a "
                "harness-built hierarchy and compares them row by row with an independent reference operator under a "
@@ -176,7 +181,8 @@ PROPS["C05"] = dict(
          "probed through sweeps with x=0, f=e_k (column k of the block inverse on k's line, non-Dirichlet unknowns): "
          "inverse of the operator's principal sub-block, symmetric, positive definite (counter line_blocks_probed). "
          "Non-trivial: non-circular geometry (non-zero mixed terms) or "
-         "non-uniform grid. Distinct: (dims, geometry, profile, BC, #circles, threads, vector kinds, probed).",
+         "non-uniform grid. Distinct: (dims, geometry, profile, BC, #circles, threads, vector kinds, probed)."
+         " Third session: 40% of the cases scale all vectors by 2^+-100 or 2^+-300.",
     technique="property-based testing (rapidcheck); algebraic-law oracle (bilinear symmetry, positivity) with rounding bounds, plus entrywise symmetry and Cholesky of probed matrices and of the functionally probed smoother line blocks",
     level_text="For generated operators the bilinear form is evaluated through the real residual implementations: "
                "|<Ax,y>-<x,Ay>| must stay below a per-case rounding bound and <Ax,x> must be positive beyond it, also "
@@ -198,7 +204,8 @@ PROPS["C04"] = dict(
          "DirectSolverGiveCustomLU (any cache-flag combination) and DirectSolverTakeCustomLU assembled with 1,2,3,5,16 "
          "threads; 1-3 right-hand sides per factorisation of kinds normal/smooth/unit/spikes/huge dynamic range/constant. "
          "Non-trivial: >=40 nodes and non-circular geometry or non-uniform grid. Distinct: (dims, geometry, profile, BC, "
-         "#circles, threads, rhs kind).",
+         "#circles, threads, rhs kind)."
+         " Third session: 40% of the right-hand sides are scaled by 2^+-300 or 2^+-600 as a whole; a quarter of the cases also go through Level::initializeDirectSolver/directSolveInPlace on a Level first initialised for the other boundary mode.",
     technique="property-based testing (rapidcheck); inverse/round-trip oracle (solve then independent residual), differential give vs take",
     level_text="The solution returned by each strategy's direct solver is fed to the other strategy's residual operator "
                "and to the independent reference operator; every row's residual must stay below the row-scaled "
@@ -217,7 +224,8 @@ _SMOOTH_RULE = ("smoothing-admissible grids (ntheta in 4,8,...,64 divisible by 4
     "present. Distinct: (dims, geometry, profile, BC, #circles, threads, model/invariant-only, boundary data).")
 
 PROPS["C06"] = dict(
-    harness="c06_smoother", flavour="rel",
+    harness="c06_smoother", flavour="rel"
+         " Third session: vectors scaled by 2^+-100/2^+-300 in 40% of the cases; one invariant-only case in eight on a grid of 10 000-25 000 nodes (parallel assembly path), there also give == take (1e-4) and multi-threaded == single-threaded objects; a fifth of the cases obtain the sweeps through a Level re-initialised for the other boundary mode.",
     quick=dict(workers=16, cases=20000, min_nontrivial=300),
     thorough=dict(workers=16, cases=100000, min_nontrivial=3000, budget_s=3000),
     rule="SmootherGive/SmootherTake on " + _SMOOTH_RULE % (2, "and for energy-norm monotonicity"),
@@ -232,7 +240,8 @@ PROPS["C06"] = dict(
 )
 
 PROPS["C07"] = dict(
-    harness="c07_extrapolated_smoother", flavour="rel",
+    harness="c07_extrapolated_smoother", flavour="rel"
+         " Third session: as C06 (scaled vectors, grids above 10 000 nodes, re-initialised Level).",
     quick=dict(workers=16, cases=20000, min_nontrivial=300),
     thorough=dict(workers=16, cases=100000, min_nontrivial=3000, budget_s=3000),
     rule="ExtrapolatedSmootherGive/Take on coarsenable " + _SMOOTH_RULE % (3, "(f := A x for an arbitrary x)"),
@@ -257,7 +266,8 @@ PROPS["C08"] = dict(
          "probed weights >=0 summing to 1 (1 in 3 grids <=600 nodes), linear reproduction at every fine node - "
          "non-midpoint nodes of the standard pair are the recorded finding F6 and are excluded (counted); the "
          "extrapolated pair's 1/2-1/2 rule is only held to midpoint nodes. Non-trivial: non-uniform spacing or >10000 "
-         "nodes. Distinct: (dims, circles on both levels, threads, uniform?, probed?).",
+         "nodes. Distinct: (dims, circles on both levels, threads, uniform?, probed?)."
+         " Third session: level pairs at depths (0,1), (1,2), (2,3); a third of the cases first apply all operators of the Interpolation object under test to another pair (mirrored grid); vectors scaled by 2^+-100/2^+-300 in 40% of the cases.",
     technique="property-based testing (rapidcheck); adjoint-pair, differential (optimised vs reference), round-trip and polynomial-exactness oracles",
     level_text="Generated fine/coarse level pairs exercise all ten transfer operators; algebraic laws (adjointness within a "
                "computed rounding bound, bitwise round trip, convexity, exactness on linear functions) are checked at every "
@@ -280,7 +290,8 @@ PROPS["C09"] = dict(
          "different solve / work vectors polluted through the friend accessor; oracle: equality with the harness's nested "
          "iteration (own vectors, reference cycles), equality with a fresh object, start error <= 30x discretisation "
          "error. Non-trivial: non-uniform spacing (interp) or a non-fresh history (startup). Distinct: grid/split/threads/"
-         "vector kind resp. hash of the option record + history.",
+         "vector kind resp. hash of the option record + history."
+         " Third session: the reference nested iteration builds the right-hand sides of all levels itself and uses its own injection; accuracy judged only when rho^cycles <= 0.2 (hypothesis of the FMG theorem) and on parametric grids; start-up records also through setParameters(argc, argv), with file grids and verbose 0/1/2; interp part: deeper level pairs, Interpolation object used on an earlier pair, scaled vectors.",
     technique="property-based testing (rapidcheck); model-based oracle (long double Lagrange interpolation), polynomial exactness, differential against a reference nested iteration, metamorphic history independence",
     level_text="The interpolation is compared node by node with an independent Lagrange model and with exact polynomial "
                "values; the start-up is compared with a reference nested iteration written with fresh vectors and with a "
@@ -302,7 +313,8 @@ PROPS["C10"] = dict(
          "the reference cycle (fresh vectors per depth; contains nu=0,L=2: u+P A_c^-1 R(f-Au) resp. the 4/3,-1/3 "
          "extrapolated correction); mode 1: f_h:=A_h u, f_c:=A_c Inj u makes u the exact solution, one cycle must return "
          "it within 1e3*eps*kappa_est*|u| (kappa_est: coarsest-level estimate x 4^(L-1)). Non-trivial: L>=3 or nu1+nu2>=1. Distinct: (cycle fn, smoothing mode, L, "
-         "nu1, nu2, strategy, BC, dims, mode).",
+         "nu1, nu2, strategy, BC, dims, mode)."
+         " Third session: 2% of the cases on 257x512 grids (thorough also 513x1024) with 2-4 threads and up to 7 levels (level 1/2 above the 10 000-node parallel threshold); records through setParameters(argc, argv) in half of the cases; file grids; verbose 0/1/2 with stdout discarded; the reference uses its own injection; cycles without any smoothing on >= 3 levels are compared with the reference only (not judged by the fixed-point oracle).",
     technique="property-based testing (rapidcheck) through a guarded friend hook; differential against a reference correction scheme, fixed-point and scratch-independence (metamorphic) oracles",
     level_text="Generated (cycle, levels, smoothing counts, iterate, scratch pollution) cases run the real private cycle "
                "functions and compare with an independently written recursive correction scheme using fresh vectors, check "
@@ -326,7 +338,8 @@ PROPS["C13"] = dict(
          "histories is the convergence_order pattern (only divideBy2 grows). After every solve a fresh object with the "
          "cumulative options is set up and solved; solution must be bit-identical (1 or 2 OpenMP threads), iteration count, "
          "reduction factor and exact errors equal. Non-trivial: >=2 solves with a state-carrying feature (combined mode, FMG, "
-         "size change). Distinct: sequence of (setup?, mode, FMG, size, solves) + hash of the first option record.",
+         "size change). Distinct: sequence of (setup?, mode, FMG, size, solves) + hash of the first option record."
+         " Third session: a third of the later rounds change only options solve() reads and do not call setup(); rounds with both tolerances disabled or 0 iterations; every statistic read after every solve; rejected rounds (take without cache, maxLevels 1, nr_exp 1) followed by reuse, also between setup() and solve(); verbose changes; file grids; setParameters() again with the same tuple and another Rmax; first configuration through setParameters(argc, argv) in half of the cases.",
     technique="stateful property-based testing (rapidcheck command histories) against a fresh-object reference model (differential)",
     level_text="Model-based exploration of call histories on the public API: the reused object and a freshly constructed "
                "one must agree bit for bit after every solve of a generated history. Exploration.",
@@ -348,7 +361,8 @@ PROPS["C19"] = dict(
          "8th-order central differences with three step sizes (best counts): Jacobian functions vs derivatives of (Fx,Fy) "
          "(1e-7 relative; Culham 2e-4 with a wide stencil), source term vs -(1/|det|)d_i(alpha|det|g^ij d_j u)+beta u "
          "(1e-6 of the sum of flux-term magnitudes), boundary data vs exact solution (1e-13), gyro alpha*beta=1 (8 eps). "
-         "Culham: Jacobian only. Non-trivial: every case. Distinct: (tuple, bucketed shape parameters, Rmax).",
+         "Culham: Jacobian only. Non-trivial: every case. Distinct: (tuple, bucketed shape parameters, Rmax)."
+         " Third session: half of the cases first construct and evaluate an earlier object of the same classes with other parameters; one case in twelve evaluates all functions from 2-8 concurrent threads (bit-identical to sequential); Shafranov kappa = 0 / delta = 0 and alpha_jump = 0 (command-line defaults); Culham Jacobian also judged near the origin (local slopes, 3e-3).",
     technique="property-based testing (rapidcheck) over the complete selection table; oracle = high-order numerical differentiation of the mapping and of the manufactured solution",
     level_text="Every accepted selection tuple is evaluated at generated points against an oracle that recomputes the "
                "Jacobian and the strong form of the PDE for the selected exact solution by nested 8th-order finite "
@@ -373,7 +387,8 @@ PROPS["C01"] = dict(
          "functions, own rhs, reference operator, own coarse grid/injection/(4r_h-r_2h)/3 combination meets the tolerance "
          "(x(1+1e-6)); initial norm from the zero vector or from a second object's FMG start. Oracle B (rate domain: "
          "finest >=17x32, extrapolation 0/1/3, not Refined): stops within 150 iterations with mean reduction factor in "
-         "(0,1). Non-trivial: >=3 iterations and >=2 levels. Distinct: hash of the option record.",
+         "(0,1). Non-trivial: >=3 iterations and >=2 levels. Distinct: hash of the option record."
+         " Third session: half of the records reach the object as one command line through setParameters(argc, argv); a sixth use one of five grids loaded from files (17x24, 33x48, 17x12 uniform, 25x40 geometric radii, 17x32 alternating widths; rate judged on uniform file grids without extrapolation only); verbose 0/1/2 with stdout discarded; setup() runs with the configured thread count.",
     technique="property-based testing (rapidcheck) over the solver's option space; oracle = independent recomputation of the stopping quantity plus convergence invariants",
     level_text="Generated configurations are solved through the public API; whenever solve() reports convergence the "
                "stopping quantity is recomputed from scratch by independent code (different operator implementation, own "
@@ -397,7 +412,8 @@ PROPS["C02"] = dict(
          "(counted). Oracle: order log2(e_k/e_k+1) >= 1.8 without and > 3.0 with implicit extrapolation in the weighted l2 "
          "and the max norm (errors recomputed from solution() with fresh ExactSolution objects), extrapolated error < plain "
          "error on the finest grid. Known finding F12 (CartesianR6, max norm, order in [2.9,3.0]) excluded and counted. "
-         "Non-trivial: finest >= 65x128. Distinct: (triple, BC, strategy+caches, k, R0 decade).",
+         "Non-trivial: finest >= 65x128. Distinct: (triple, BC, strategy+caches, k, R0 decade)."
+         " Third session: a third of the chains start from an anisotropic base grid (finding F22: max-norm order in [2.6,3.0] excluded and counted), interior Dirichlet radii up to 0.5 Rmax (annuli), a sixth are small two-level chains (33->65 radial nodes, l2 norm and 'extrapolated more accurate' judged); more than 8% inconclusive cases: exit 2.",
     technique="property-based testing (rapidcheck) with a metamorphic refinement relation: error ratios between successive uniform refinements of manufactured problems",
     level_text="For generated shipped problems the converged discrete solutions on two successive refinements are compared "
                "with the exact solution; the observed order must match the stated one in both norms, with and without "
@@ -427,7 +443,8 @@ PROPS["C20"] = dict(
          "vectors from a grammar over all 32 registered options (valid, out-of-range, non-numeric, missing value, unknown "
          "option, --help) run as child processes of the ASan-built gmgpolar: exit 0, or a normal non-zero exit with a "
          "diagnostic on stderr; a signal (uncaught exception, assert, SEGV) or sanitizer report is a violation. "
-         "Non-trivial: every api case, every cli case with arguments. Distinct: hash of the option record / argv.",
+         "Non-trivial: every api case, every cli case with arguments. Distinct: hash of the option record / argv."
+         " Third session: every statistic read after every solve; grid files with 12, 24, 20 angular divisions; second run with paraview on (scratch directory), setup() writing the grid files, and a setup() that must be rejected before the real setup() or between setup() and solve(); half of the parser-acceptable records through setParameters(argc, argv); command-line grammar with --paraview, --write_grid_file, --load_grid_file and the file name options.",
     technique="property-based testing (rapidcheck) under ASan/UBSan with a differential uninitialised-memory detector (two memory patterns) and a grammar-based command-line fuzzer",
     level_text="Generated option records and command lines exercise the public API and the shipped driver under sanitizers; "
                "the clean-rejection-or-clean-run contract and the well-definedness of every reported statistic are checked "
@@ -451,7 +468,8 @@ PROPS["C11"] = dict(
          "circle count mod 2,3,4 and of ntheta mod 3,4 incl. minimal sizes; threads 2,3,4,5,7,8,16,33 (oversubscribed, "
          "more threads than lines). Each case runs in a child built with -fsanitize=thread under the Archer OMPT tool "
          "(banner checked), operator executed twice in parallel and once serially. Non-trivial: threads>=2. Distinct: "
-         "(operator, circles mod 12, nr, ntheta, BC, threads).",
+         "(operator, circles mod 12, nr, ntheta, BC, threads)."
+         " Third session: a fifth of the whole solves use nr_exp 8 (levels above the 10 000-node threshold, one iteration); setup() runs with the configured thread count; a line-solver operator (n up to 30000).",
     technique="property-based testing (rapidcheck) over schedule classes (shape x thread count) with a happens-before race detector (ThreadSanitizer + Archer OMPT) as the oracle, plus parallel-vs-serial differential",
     level_text="The code uses only statically scheduled omp-for loops and barriers, so which thread touches which line and "
                "what synchronises them is a function of (operator, grid shape class, thread count); the harness generates "
@@ -473,7 +491,8 @@ PROPS["C12"] = dict(
          "equality demanded, except scalar reductions and solves with >2 threads) and once with t2 threads (difference <= "
          "1e-11 relative for matrix-free operators, 1e-8 for line/direct solves, 1e-6 for solves); kernels are compared with "
          "a long double reference within (n+4)*eps*sum|terms| and element-wise kernels bitwise with the step-by-step "
-         "definition. Non-trivial: some thread count >= 2. Distinct: (operator, thread counts, shape/size).",
+         "definition. Non-trivial: some thread count >= 2. Distinct: (operator, thread counts, shape/size)."
+         " Third session: whole solves with nr_exp 7/8, through setParameters(argc, argv), with file grids; a sixth of the cases call the operator from inside an enclosing parallel region; transfer results must be bit-identical across thread counts; line-solver operator; a campaign failure counts when the saved case fails again in 2 of up to 10 replays.",
     technique="property-based testing (rapidcheck); metamorphic relations (repeat run, change thread count) and a long double reference for the kernels",
     level_text="Generated operator/shape/thread-count cases are executed repeatedly and with different thread counts; outputs "
                "must be bit-identical run to run and equal up to re-association across thread counts; the vector kernels "
